@@ -451,6 +451,18 @@ class Gen:
         self.ns += n
         self.gets(self.ns - n - 1, self.ns)
 
+    def op_restart_rewind(self):
+        """restart over the same (unpurged) store with a configured send number BELOW the numbers already used: the next application
+        messages go out under numbers the store already holds (its put is refused; the control record must follow the session all the same)"""
+        if self.pk == 'none' or self.ns <= 3:
+            return self.op_restart()
+        ss = self.r.randrange(1, self.ns - 1)
+        self.emit('restart %d 0' % ss, kind='restart-rewind')
+        self.ns = ss + 1
+        self.alive = True
+        for _ in range(self.r.randrange(1, 4)):
+            self.op_app()
+
     def op_restart(self):
         if self.pk == 'none' and self.r.random() < 0.7:
             return
